@@ -589,10 +589,12 @@ impl Dominance for ModelDominance<'_> {
             _ => self.0.b,
         }
     }
+    // order-preserving images of the abstract coordinates (capacity / membership bit) that reach the ends of the isize range:
+    // a dominance relation may legitimately use isize::MAX / isize::MIN as "unbounded" (differences of coordinates overflow)
     fn get_coordinate(&self, s: &St, i: usize) -> isize {
         match self.0.family {
-            Family::Knapsack => s.x as isize,
-            _ => (s.x >> i & 1) as isize,
+            Family::Knapsack => (s.x as isize - 13) * (isize::MAX / 16),
+            _ => if s.x >> i & 1 == 1 { isize::MAX } else { isize::MIN },
         }
     }
     fn use_value(&self) -> bool {
